@@ -80,6 +80,43 @@ pub fn dispatch(v: &Value) -> Value {
             };
             json!({"ty": format!("{:?}", p(&s(v, "a")).max_restrictive(p(&s(v, "b"))))})
         }
+        "pv_fold" => {
+            // fold_constraint_set (hook) on a SetOperation
+            let set = crate::ir::setop(&v["set"]);
+            let st = crate::ir::string_type(v.get("cs"));
+            let rc = v.get("rc").and_then(|x| x.as_bool()).unwrap_or(true);
+            match hk::fold_constraint_set(&set, st, rc) {
+                Ok(None) => json!({"ok": null}),
+                Ok(Some(e)) => json!({"ok": crate::ir::elem_json(&e)}),
+                Err(_) => json!({"err": true}),
+            }
+        }
+        "pv_range" => {
+            // per_visible_range_constraints (public API) on a list of serial constraints
+            use rasn_compiler::prelude::ir::*;
+            let cs: Vec<Constraint> = v["constraints"].as_array().map(|a| a.iter().map(crate::ir::constraint).collect()).unwrap_or_default();
+            let signed = v.get("signed").and_then(|x| x.as_bool()).unwrap_or(true);
+            match per_visible_range_constraints(signed, &cs) {
+                Ok(r) => json!({"ok": {"min": r.min::<i128>().map(|x| x.to_string()), "max": r.max::<i128>().map(|x| x.to_string()),
+                                        "ext": r.is_extensible(), "size": r.is_size_constraint()}}),
+                Err(_) => json!({"err": true}),
+            }
+        }
+        "parse_constraints" => {
+            use rasn_compiler::prelude::ir::*;
+            match hk::parse_constraints(&s(v, "text")) {
+                Ok(cs) => json!({"ok": cs.iter().map(|c| match c {
+                    Constraint::Subtype(e) => json!({"set": crate::ir::eos_json(&e.set), "ext": e.extensible}),
+                    _ => json!({"other": true}),
+                }).collect::<Vec<_>>()}),
+                Err(e) => json!({"err": e}),
+            }
+        }
+        "charset" => {
+            let st = crate::ir::string_type(v.get("cs")).unwrap();
+            let cs: Vec<u32> = hk::character_set(st).into_iter().map(|c| c as u32).collect();
+            json!({"len": cs.len(), "head": cs.iter().take(200).collect::<Vec<_>>(), "last": cs.last()})
+        }
         _ => json!({"harness_error": format!("unknown op {op}")}),
     }
 }
